@@ -13,6 +13,7 @@ def F(x):
 
 def rec_1d(kind, m, ncell, lo, hi, extra):
     try:
+        _decoys = [fd.mesh.unimesh(ncell=ncell + 3, length=7.0, x0=-2.0), fd.mesh.refinedmesh(ncell=ncell + 5, length=0.3, ratio=3.0)]
         return _rec_1d(kind, m, ncell, lo, hi, extra)
     except Exception as ex:      # e.g. non-finite faces: an observation about the mesh, not a harness failure
         return dict(kind="raised", dim=1, what="%s: %s" % (type(ex).__name__, str(ex)[:100]), mesh=kind, ncell=ncell)
@@ -116,6 +117,9 @@ def rec_2d(nx, ny, lx, ly):
 def _rec_2d(nx, ny, lx, ly):
     from .driver_obs import FakeModel
     m = fd.mesh2d.mesh2d(nx, ny, lx, ly)
+    # meshes live among other meshes: two more of other sizes are built AFTER the one that is judged (a mesh answers for its own
+    # numbers, whatever other meshes exist)
+    _decoys = [fd.mesh2d.mesh2d(nx + 1, ny + 2, 1.0, 1.0), fd.mesh2d.mesh2d(max(1, ny - 1), nx + 3, 2.0, 0.5)]
     model = FakeModel()
     cells = np.arange(1, nx * ny + 1, dtype=float)
     f = fd.field.fdata(model, m, [cells])
@@ -181,7 +185,7 @@ def run(tier):
     if ss:
         rep.sample(ss[min(5, len(ss) - 1)])
     wd = core.scratch("c20")
-    bad, jr = core.judge("Judge_Mesh", recs, wd)
+    bad, jr = core.judge("Judge_Mesh", recs, wd, unjudgeable="C20_unjudgeable")
     rep.add_tlc("Judge_Mesh", jr, counts_as_model=False)
     rep.traces = len(recs)
     byid = {r["id"]: r for r in recs}
